@@ -99,6 +99,8 @@ def spec_form(eng, name, node, st):
         o = st.old
         tmp = State()
         tmp.env = dict(o.env)
+        if "result" in st.env:
+            tmp.env["result"] = st.env["result"]
         # quantified variables bound in the current env must stay visible inside old(...)
         for k, v in st.env.items():
             if k.startswith("$q:"):
@@ -472,12 +474,20 @@ def method_call(eng, recv, recv_node, name, node, st):
     kwargs = {k.arg: eng.eval(k.value, st) for k in node.keywords}
     if isinstance(recv, VModel):
         return recv.sym_call_method(eng, st, name, args, kwargs, node)
+    if hasattr(eng, "value_method"):
+        r = eng.value_method(recv, name, args, st)
+        if r is not NotImplemented:
+            return r
     if recv == ("emptylist",) and name == "append":
         v = args[0]
         s = sort_of(v)
         new = VList(s, z3.Store(z3.K(z3.IntSort(), to_z3(v, s)), 0, to_z3(v, s)), z3.IntVal(1))
         eng.assign(recv_node, new, st, True)
         return NONE
+    if isinstance(recv, (VList, VDict, VSet)) and name in ("size", "push_back", "pop_back", "at", "erase", "find", "end", "count", "insert", "empty"):
+        r = cpp_container_method(eng, recv, recv_node, name, args, st)
+        if r is not NotImplemented:
+            return r
     if isinstance(recv, VList):
         if name == "append":
             _check_alias(eng, recv_node, st)
@@ -544,6 +554,52 @@ def method_call(eng, recv, recv_node, name, node, st):
         eng.assign(recv_node, VSet(s, z3.Store(z3.K(s.z3sort(), False), to_z3(v, s), True)), st, True)
         return NONE
     raise Unsupported("method %s on %r (line %s)" % (name, recv, getattr(node, "lineno", "?")))
+
+
+def cpp_container_method(eng, recv, recv_node, name, args, st):
+    """libcpp vector / unordered_map / unordered_set methods (Cython front end)"""
+    from .fe_cython import VIter
+    if isinstance(recv, VList):
+        if name == "size":
+            return recv.len
+        if name == "empty":
+            return recv.len == 0
+        if name == "push_back":
+            eng.assign(recv_node, eng.list_append(recv, args[0]), st, True)
+            return NONE
+        if name == "pop_back":
+            eng.oblige(st, "noexc", recv.len > 0, "pop_back-on-empty-vector")
+            eng.assign(recv_node, VList(recv.elem, recv.arr, recv.len - 1, recv.is_str), st, True)
+            return NONE
+        if name == "at":
+            return eng.getitem(recv, args[0], st)
+    if isinstance(recv, VDict):
+        if name == "size":
+            return card(eng, st, recv)
+        if name == "erase":
+            kz = to_z3(args[0], recv.key)
+            eng.assign(recv_node, VDict(recv.key, recv.val, z3.Store(recv.dom, kz, False), recv.map), st, True)
+            return NONE
+        if name == "find":
+            return VIter(recv, args[0])
+        if name == "end":
+            return VIter(recv, end=True)
+        if name == "count":
+            return z3.If(recv.dom[to_z3(args[0], recv.key)], 1, 0)
+    if isinstance(recv, VSet):
+        if name == "insert":
+            eng.assign(recv_node, VSet(recv.key, z3.Store(recv.dom, to_z3(args[0], recv.key), True)), st, True)
+            return NONE
+        if name == "erase":
+            eng.assign(recv_node, VSet(recv.key, z3.Store(recv.dom, to_z3(args[0], recv.key), False)), st, True)
+            return NONE
+        if name == "find":
+            return VIter(VDict(recv.key, BOOL, recv.dom, None), args[0])
+        if name == "end":
+            return VIter(VDict(recv.key, BOOL, recv.dom, None), end=True)
+        if name == "count":
+            return z3.If(recv.dom[to_z3(args[0], recv.key)], 1, 0)
+    return NotImplemented
 
 
 def _check_alias(eng, recv_node, st):
